@@ -1267,3 +1267,152 @@ Proof.
   fold (zcfg_of c ns). destruct (render (zcfg_of c ns) shapes) eqn:Er; [discriminate|].
   intros H; injection H as <-. right. split; [reflexivity|]. eauto.
 Qed.
+
+(** ** I. every class with an instance keeps its typing constraint at any
+    threshold <= 1: no shape is empty before the shape-level cleaning *)
+
+(** all instances listed for a class have the class among the values of the
+    instantiation property: the count of the typing entry is the class size *)
+Lemma occ_typing tau g (ins : insts) cl :
+  Forall (listing_ok tau g) ins ->
+  occ Direct tau ins g cl tau cl (CKn 1) = class_count ins cl.
+Proof.
+  intros Hall. unfold occ, class_count. apply sumN_map_ext. intros [i cs] Hin. cbn [fst snd].
+  destruct (card_ok tau tau (CKn 1) (cnt Direct tau ins g i tau cl)) eqn:Ec; [reflexivity|].
+  rewrite count_in_count_str. symmetry. apply count_str_zero. intros Hcl.
+  rewrite Forall_forall in Hall. destruct (Hall (i, cs) Hin cl Hcl) as (t & o & Ht & Hs & Hp & Ho & Hid).
+  cbn [fst] in Hs.
+  assert (Hpos : (0 < cnt Direct tau ins g i tau cl)%N).
+  { apply (cnt_pos_of_In Direct tau ins g i tau cl t Ht). cbn [contrib].
+    rewrite Hs, Hp, !str_eqb_refl. cbn [andb]. unfold keys_direct. rewrite Ho, Hp, str_eqb_refl, Hid.
+    cbn [count_in]. rewrite str_eqb_refl. lia. }
+  unfold card_ok in Ec. rewrite str_eqb_refl in Ec. apply N.ltb_lt in Hpos. rewrite Hpos in Ec.
+  cbn in Ec. discriminate.
+Qed.
+
+Section TypingConstraint.
+  Variable fa : FreqAlg.
+  Variables (okN : N -> Prop) (okF : F fa -> Prop).
+  Hypothesis L : FreqLaws fa okN okF.
+
+  Lemma fle_ratio_self thr n : okF thr -> okN n -> fle fa thr (fone fa) = true -> fle fa thr (ratio fa n n) = true.
+  Proof.
+    intros Ht Hn Hle.
+    assert (Hr : okF (ratio fa n n)) by (apply (ratio_wf _ _ _ L); exact Hn).
+    apply (fle_trans _ _ _ L thr (fone fa) (ratio fa n n)); [exact Ht | apply (fone_ok _ _ _ L) | exact Hr | exact Hle|].
+    assert (E : feqb fa (ratio fa n n) (fone fa) = true) by (apply (ratio_one _ _ _ L); [exact Hn | lia | reflexivity]).
+    apply (feqb_fle _ _ _ L) in E; [apply E | exact Hr | apply (fone_ok _ _ _ L)].
+  Qed.
+
+  (** a class of the profile that has an instance yields a non-empty shape *)
+  Lemma shex_class_nonempty c g ns ins P C ID thr cl e sh :
+    track (r_tau c) (tmode_of c) (r_cap c) g = inl ins ->
+    profile (pcfg_of c) ins g = inl (P, C, ID) ->
+    In (cl, e) P -> (0 < class_count ins cl)%N -> okN (class_count ins cl) ->
+    okF thr -> fle fa thr (fone fa) = true ->
+    shex_class fa (scfg_of c ns) thr C (cl, e) = inl sh -> sh_stmts sh <> [].
+  Proof.
+    intros Ht Hp Hce Hpos HokN HokF Hle Hs.
+    destruct (track_insts_ok _ _ _ _ _ Ht) as [ND _].
+    pose proof (track_classes _ _ _ _ _ Ht) as Hall.
+    destruct (profile_final_char (pcfg_of c) ins g P C ID ND Hp) as (_ & _ & (ks & Hks & _) & _ & HC & _).
+    assert (Hk : In cl (dkeys P)) by (apply in_map_iff; exists (cl, e); auto).
+    assert (Hcl : In cl (class_keys (targets_of (pcfg_of c)) ins)).
+    { rewrite Hks in Hk. apply filter_In in Hk. apply Hk. }
+    destruct (profile_final_complete (pcfg_of c) ins g P C ID ND Hp cl e Hce (r_tau c) cl (fun _ => Hk)) as [Hcomp _].
+    cbn [p_tau pcfg_of] in Hcomp. specialize (Hcomp (CKn 1)).
+    rewrite (occ_typing (r_tau c) g ins cl Hall) in Hcomp.
+    destruct (Hcomp Hpos) as (m & cd & H1 & H2 & H3).
+    assert (Hpass : key_passes fa (scfg_of c ns) thr (cnt_of C (fst (cl, e))) (class_pd (scfg_of c ns) (cl, e) false)
+                               (r_tau c) (VClass cl)).
+    { exists cl, (CKn 1), (class_count ins cl). split; [exists m, cd; auto|]. split.
+      - unfold value_class. cbn [x_tau scfg_of]. rewrite str_eqb_refl. reflexivity.
+      - cbn [fst]. unfold cnt_of. rewrite (HC cl Hcl). apply fle_ratio_self; assumption. }
+    apply (shex_class_keys fa (scfg_of c ns) thr C (cl, e) sh Hs) in Hpass.
+    intros E. rewrite E in Hpass. destruct Hpass.
+  Qed.
+End TypingConstraint.
+
+(** all_classes mode: every class key of the profile has an instance *)
+Lemma all_classes_have_instances c g ins P C ID :
+  r_targets c = None ->
+  track (r_tau c) (tmode_of c) (r_cap c) g = inl ins ->
+  profile (pcfg_of c) ins g = inl (P, C, ID) ->
+  forall ce, In ce P -> (0 < class_count ins (fst ce))%N.
+Proof.
+  intros Hnone Ht Hp ce Hce.
+  destruct (track_insts_ok _ _ _ _ _ Ht) as [ND _].
+  destruct (profile_final_char (pcfg_of c) ins g P C ID ND Hp) as (_ & _ & (ks & Hks & _) & _).
+  assert (H : In (fst ce) (dkeys P)) by (apply in_map; exact Hce).
+  rewrite Hks in H. apply filter_In in H. destruct H as [H _].
+  unfold class_keys in H. rewrite uniq_first_first_occ in H. apply (proj1 (In_first_occ _ _)) in H.
+  unfold targets_of in H. cbn [p_targets pcfg_of] in H. rewrite Hnone in H. cbn [app] in H.
+  rewrite class_count_concat. apply count_str_pos. exact H.
+Qed.
+
+Section NoEmptyShape.
+  Variable fa : FreqAlg.
+  Variables (okN : N -> Prop) (okF : F fa -> Prop).
+  Hypothesis L : FreqLaws fa okN okF.
+
+  Theorem run_raw_nonempty c thr g ns l :
+    r_targets c = None -> okF thr -> fle fa thr (fone fa) = true ->
+    (forall n, (0 < n <= N.of_nat (List.length g))%N -> okN n) ->
+    run_raw fa c thr g = inl (ns, l) -> Forall (fun sh => sh_stmts sh <> []) l.
+  Proof.
+    intros Hnone HokF Hle HokN H. unfold run_raw in H.
+    destruct (full_ns c) as [ns0|]; [|discriminate].
+    destruct (front c g) as [[P C]|e] eqn:Hf; [|discriminate].
+    destruct (map_err (shex_class fa (scfg_of c ns0) thr C) P) as [l0|e] eqn:Em; [|discriminate].
+    injection H as <- <-. apply map_err_Forall2 in Em.
+    destruct (front_inl c g P C Hf) as (ins & ID & Ht & Hp).
+    apply Forall_forall. intros sh Hsh.
+    destruct (ShexBasics.Forall2_In_r _ _ _ _ Em Hsh) as [[cl e] [Hce Hs]].
+    pose proof (all_classes_have_instances c g ins P C ID Hnone Ht Hp (cl, e) Hce) as Hpos. cbn [fst] in Hpos.
+    apply (shex_class_nonempty fa okN okF L c g ns0 ins P C ID thr cl e sh Ht Hp Hce Hpos); try assumption.
+    apply HokN. split; [exact Hpos|]. exact (class_count_le_graph _ _ _ _ _ cl Ht).
+  Qed.
+End NoEmptyShape.
+
+Lemma okN53_of_graph (g : graph) :
+  (N.of_nat (List.length g) < 2 ^ 53)%N -> forall n, (0 < n <= N.of_nat (List.length g))%N -> okN53 n.
+Proof. intros Hg n Hn. unfold okN53. lia. Qed.
+
+(** C14 in all_classes mode, thresholds <= 1: no condition on remove_empty_shapes *)
+Theorem run_direct_unchanged_all_classes c thr g ns st :
+  r_targets c = None -> wf_frac thr -> fle BAlg thr (fone BAlg) = true ->
+  (N.of_nat (List.length g) < 2 ^ 53)%N ->
+  run_shapes BAlg (rwith_inverse true c) thr g = inl (ns, st) ->
+  exists sf, run_shapes BAlg (rwith_inverse false c) thr g = inl (ns, sf) /\ Forall2 direct_part st sf.
+Proof.
+  intros Hnone Hw Hle Hg. apply (run_direct_unchanged_nonempty BAlg c thr g ns st order_at_BAlg).
+  intros ns' l Hr.
+  exact (run_raw_nonempty BAlg okN53 wf_frac BAlg_laws (rwith_inverse false c) thr g ns' l Hnone Hw Hle
+                          (okN53_of_graph g Hg) Hr).
+Qed.
+
+(** C04 in all_classes mode, thresholds <= 1: condition (iii) on the options is
+    not needed (the shape-level cleaning finds no empty shape, so the only
+    statement it could fail on is never reached) *)
+Theorem run_total_all_classes c thr g :
+  r_targets c = None -> wf_frac thr -> fle BAlg thr (fone BAlg) = true ->
+  (N.of_nat (List.length g) < 2 ^ 53)%N ->
+  typing_okb (r_tau c) g && forallb (sentinel_free (r_tau c)) g && prefix_free c = true ->
+  exists ns shapes, run_shapes BAlg c thr g = inl (ns, shapes).
+Proof.
+  intros Hnone Hw Hle Hg H.
+  apply andb_true_iff in H. destruct H as [H H4]. apply andb_true_iff in H. destruct H as [H1 H2].
+  apply typing_okb_ok in H1. destruct (prefix_free_spec c H4) as [ns Hns].
+  destruct (front_total c g H1) as (ins & P & C & ID & Ht & Hp).
+  assert (Hf : front c g = inl (P, C)) by (unfold front; rewrite Ht, Hp; reflexivity).
+  assert (Hok : forall ce, In ce P -> tokens_ok (scfg_of c ns) ce).
+  { intros ce Hce. apply entries_ok_tokens_ok.
+    exact (profile_entries_renderable c g ns ins P C ID H2 Ht Hp ce Hce). }
+  destruct (ShexKeys.map_err_total (shex_class BAlg (scfg_of c ns) thr C) P) as [l Hl].
+  { intros ce Hce. apply shex_class_total. apply Hok; exact Hce. }
+  assert (Hraw : run_raw BAlg c thr g = inl (ns, l)) by (unfold run_raw; rewrite Hns, Hf, Hl; reflexivity).
+  pose proof (run_raw_nonempty BAlg okN53 wf_frac BAlg_laws c thr g ns l Hnone Hw Hle (okN53_of_graph g Hg) Hraw) as Hne.
+  exists ns, l. rewrite run_shapes_front, Hns, Hf. unfold shex. rewrite Hl.
+  destruct (x_remove_empty (scfg_of c ns)); [|reflexivity].
+  rewrite clean_shapes_id by exact Hne. reflexivity.
+Qed.
